@@ -54,3 +54,8 @@ func (lh *WorkerLoop) VerifTerm() *termincommittee.TermInCommittee {
 func (m *MainLoop) VerifWorker() *WorkerLoop {
 	return m.worker
 }
+
+// VerifQueued reports how many items wait in the three channels between the main loop and the worker.
+func (lh *WorkerLoop) VerifQueued() (messages int, elections int, updates int) {
+	return len(lh.MessagesChannel), len(lh.electionChannel), len(lh.workerUpdateStateChannel)
+}
